@@ -267,7 +267,7 @@ fn scenarios_for(tier: Tier, formats: &[Format], policies: &[PolKind], chunks: &
 pub fn c04(tier: Tier) -> i32 {
     let scenarios = scenarios_for(tier, &[Format::Fasta, Format::Fastq], &[PolKind::Std], &[Chunk::All, Chunk::Fixed(1)], &|rs, env| {
         let n = rs.recs.len() as u8;
-        let mut alphabet = vec![Op::N, Op::O, Op::SA, Op::SB, Op::E(1), Op::E(2), Op::E(3), Op::K(0)];
+        let mut alphabet = vec![Op::N, Op::O, Op::SA, Op::SB, Op::E(1), Op::E(2), Op::E(3), Op::E(255), Op::K(0)];
         if n >= 2 {
             alphabet.push(Op::K(n - 1));
         }
@@ -277,7 +277,7 @@ pub fn c04(tier: Tier) -> i32 {
         prop: "C04",
         tier,
         state_cap: if tier == Tier::Quick { 3000 } else { 60000 },
-        rule: format!("explicit-state BFS to fixpoint over the call alphabet {{next, records().next, read_record_set into A / into B, read_record_set_exact(A,1..3), seek(first record), seek(last record)}} on the real reader, for every scenario = (format, input of the 1-3 record shape family incl. CRLF / blank-line / missing-terminator / invalid-record variants, capacity{}, chunking all/1); oracle on every transition = reference stream + cursor (content, exactly-once, order, batch >= 1, exact counts, end only when nothing is left, other set unchanged, only preceding records before an error)", if tier == Tier::Quick { " (boundary-oriented subset for inputs > 12 bytes)" } else { " 3..len+2" }),
+        rule: format!("explicit-state BFS to fixpoint over the call alphabet {{next, records().next, read_record_set into A / into B, read_record_set_exact(A, 1..3 and usize::MAX), seek(first record), seek(last record)}} on the real reader, for every scenario = (format, input of the 1-3 record shape family incl. CRLF / blank-line / missing-terminator / invalid-record variants, capacity{}, chunking all/1); oracle on every transition = reference stream + cursor (content, exactly-once, order, batch >= 1, exact counts, end only when nothing is left, other set unchanged, only preceding records before an error)", if tier == Tier::Quick { " (boundary-oriented subset for inputs > 12 bytes)" } else { " 3..len+2" }),
         scenarios,
         plain_depth: if tier == Tier::Quick { 4 } else { 5 },
         plain_every: if tier == Tier::Quick { 40 } else { 25 },
